@@ -79,7 +79,7 @@ def call_eas(eas, v):
 def build_eas(v):
     from nuspacesim.simulation.eas_optical.eas import EAS
 
-    eas = object.__new__(EAS)
+    eas = harness.partial(EAS)
     opt = types.SimpleNamespace(telescope_effective_area=v["area"], quantum_efficiency=v["qe"], photo_electron_threshold=v["thr"])
     eas.config = types.SimpleNamespace(detector=types.SimpleNamespace(optical=opt))
     eas.CphotAng = KernelStub(v)
